@@ -261,6 +261,17 @@ Example C10_hyps_satisfiable :
                                          (-6, 3); (-6, 5); (-6, 7); (-6, 9)].
 Proof. vm_compute. repeat split. Qed.
 
+(* a history: object 0 is read, edited in place, read again; then copied, the copy edited (negative indices) and both
+   read.  The recorded values are what /repo returned.  A stale second read (the old views on the new contents) and an
+   aliased copy (the copy's edit visible in the original) are both rejected, by the model and by the specification. *)
+Example C10_hist_example :
+  agree (KHist ex_hist) = true /\ spec_ok (KHist ex_hist) = true
+  /\ contents (state_after ex_hist 3) 0%nat = ex_m1 /\ contents (state_after ex_hist 6) 0%nat = ex_m1
+  /\ contents (state_after ex_hist 6) 1%nat = ex_m2
+  /\ edge_slim ex_m0 = [0] /\ edge_slim ex_m1 = [0; 1] /\ edge_native ex_m2 = [(1, 0)]
+  /\ check (KHist ex_hist_stale) = 2%nat /\ check (KHist ex_hist_alias) = 2%nat.
+Proof. vm_compute. repeat split. Qed.
+
 Print Assumptions C10_blurring_util_is_spec. Print Assumptions C10_blurring_from_is_spec.
 Print Assumptions C10_blurring_exact. Print Assumptions C10_blurring_error_iff_footprint_leaves.
 Print Assumptions C10_blurring_ok_iff_footprints_inside. Print Assumptions C10_blurring_result_or_mask_exception.
